@@ -32,7 +32,9 @@ def gen_triple(rng, tier):
         r = rng.random()
         if r < 0.4:
             e = b"\r\n" if base["crlf"] else b"\n"
-            ops.append("W:" + g.hx(b"%c%d" % (65 + n % 26, n) + e))
+            # the text of a record can be anything: empty, multi-line, or itself ending in the line ending
+            txt = rng.choice([b"%c%d" % (65 + n % 26, n)] * 4 + [b"", e, b"%c%d" % (65 + n % 26, n) + e, b"m\nl" + e, b"x" * 70])
+            ops.append("W:" + g.hx(txt + e))
             n += 1
         elif r < 0.75:
             if rng.random() < 0.5:
